@@ -19,6 +19,7 @@ import (
 	"fmt"
 	"github.com/echovault/sugardb/internal"
 	"github.com/echovault/sugardb/internal/clock"
+	"github.com/echovault/sugardb/internal/verifhook"
 	"io"
 	"os"
 	"path"
@@ -114,11 +115,13 @@ func (store *Store) CreatePreamble() error {
 	if err != nil {
 		return err
 	}
+	verifhook.Point("preamble.after_state")
 
 	// Truncate the preamble first
 	if err = store.rw.Truncate(0); err != nil {
 		return err
 	}
+	verifhook.Point("preamble.after_truncate")
 	// Seek to the beginning of the file after truncating
 	if _, err = store.rw.Seek(0, 0); err != nil {
 		return err
@@ -127,11 +130,13 @@ func (store *Store) CreatePreamble() error {
 	if _, err = store.rw.Write(o); err != nil {
 		return err
 	}
+	verifhook.Point("preamble.after_write")
 
 	// Sync the changes
 	if err = store.rw.Sync(); err != nil {
 		return err
 	}
+	verifhook.Point("preamble.after_sync")
 
 	return nil
 }
